@@ -38,8 +38,24 @@ for mid in sorted(os.listdir(SEEDED)):
     own = det.get(prop, {})
     rows.append((mid, prop, own.get("violations", 0) > 0, own.get("concrete_failing_input"), [p for p, v in det.items() if v["violations"] and p != prop], own.get("wall_s")))
     print(rows[-1], flush=True)
+# the table is always rebuilt from every meta.json, so a partial run does not lose rows
+allrows = []
+for mid in sorted(os.listdir(SEEDED)):
+    mp = os.path.join(SEEDED, mid, "meta.json")
+    if not os.path.isfile(mp):
+        continue
+    meta = json.load(open(mp)); prop = meta["breaks_property"]; det = meta.get("detected_by") or {}
+    own = det.get(prop, {})
+    allrows.append((mid, prop, own.get("violations", 0) > 0, own.get("concrete_failing_input"),
+                    [p for p, v in det.items() if v["violations"] and p != prop], own.get("wall_s")))
 with open(os.path.join(SEEDED, "DETECTION.md"), "w") as f:
-    f.write("# Seeded changes and what the checks report (quick tier, VERIF_SEED default)\n\n| change | breaks | own check alarms | concrete failing input | other checks that alarm | wall s |\n|---|---|---|---|---|---|\n")
-    for r in rows:
-        f.write("| %s | %s | %s | %s | %s | %s |\n" % (r[0], r[1], "yes" if r[2] else "NO", "yes" if r[3] else ("no (obligation/correspondence only)" if r[2] else "-"), ", ".join(r[4]) or "-", r[5]))
-print("detected by own check: %d / %d" % (sum(1 for r in rows if r[2]), len(rows)))
+    f.write("# Seeded changes and what the checks report (quick tier, VERIF_SEED default)\n\n"
+            "Each change was written by an independent sub-agent given only the property text and a scratch worktree, confirmed by "
+            "`scripts/confirm_seeded.py` (compiles, unedited suite passes with it, demonstration fails with it and passes without it) "
+            "and run by `scripts/detect_matrix.py`.\n\n"
+            "| change | breaks | own check alarms | concrete failing input | other checks that alarm | wall s |\n|---|---|---|---|---|---|\n")
+    for r in allrows:
+        f.write("| %s | %s | %s | %s | %s | %s |\n" % (r[0], r[1], "yes" if r[2] else "NO",
+                "yes" if r[3] else ("no (broken obligation / correspondence outside the property's observables)" if r[2] else "-"), ", ".join(r[4]) or "-", r[5]))
+    f.write("\nDetected by the check of the property it breaks: %d / %d.\n" % (sum(1 for r in allrows if r[2]), len(allrows)))
+print("detected by own check (this run): %d / %d" % (sum(1 for r in rows if r[2]), len(rows)))
